@@ -19,48 +19,31 @@
 (declare-fun JV (Heap Str Val) Bool)
 (declare-fun floatMarked (Str) Bool)    ; C01: the token is recognisably a float (contains '.' or an exponent)
 ; scalars
-(assert (forall ((h Heap)) (! (JV h str_null WNil) :pattern ((JV h str_null WNil)))))
-(assert (forall ((h Heap) (b Bool)) (! (JV h (fmtBool b) (WBool b)) :pattern ((JV h (fmtBool b) (WBool b))))))
-(assert (forall ((h Heap) (i Int)) (! (JV h (itoa i) (WInt i)) :pattern ((JV h (itoa i) (WInt i))))))
-(assert (forall ((h Heap) (t Str) (x Str)) (! (=> (JQ t x) (JV h t (WStr x))) :pattern ((JV h t (WStr x))))))
+(assert (forall ((h Heap)) (! (=> (gh h) (JV h str_null WNil)) :pattern ((JV h str_null WNil)))))
+(assert (forall ((h Heap) (b Bool)) (! (=> (gh h) (JV h (fmtBool b) (WBool b))) :pattern ((JV h (fmtBool b) (WBool b))))))
+(assert (forall ((h Heap) (i Int)) (! (=> (gh h) (JV h (itoa i) (WInt i))) :pattern ((JV h (itoa i) (WInt i))))))
+(assert (forall ((h Heap) (t Str) (x Str)) (! (=> (gh h) (=> (JQ t x) (JV h t (WStr x)))) :pattern ((JV h t (WStr x))))))
 ; numbers: each of the three spellings is a JSON number denoting f
-(assert (forall ((h Heap) (f F64)) (! (JV h (ffmtE f) (WFloat f)) :pattern ((JV h (ffmtE f) (WFloat f))))))
-(assert (forall ((h Heap) (f F64)) (! (JV h (ffmtF f) (WFloat f)) :pattern ((JV h (ffmtF f) (WFloat f))))))
-(assert (forall ((h Heap) (f F64)) (! (=> (not (hasDot (ffmtF f))) (JV h (app (ffmtF f) str_dot0) (WFloat f))) :pattern ((JV h (app (ffmtF f) str_dot0) (WFloat f))))))
+(assert (forall ((h Heap) (f F64)) (! (=> (gh h) (JV h (ffmtE f) (WFloat f))) :pattern ((JV h (ffmtE f) (WFloat f))))))
+(assert (forall ((h Heap) (f F64)) (! (=> (gh h) (JV h (ffmtF f) (WFloat f))) :pattern ((JV h (ffmtF f) (WFloat f))))))
+(assert (forall ((h Heap) (f F64)) (! (=> (gh h) (=> (not (hasDot (ffmtF f))) (JV h (app (ffmtF f) str_dot0) (WFloat f)))) :pattern ((JV h (app (ffmtF f) str_dot0) (WFloat f))))))
 (assert (forall ((f F64)) (! (floatMarked (ffmtE f)) :pattern ((ffmtE f)))))
 (assert (forall ((f F64)) (! (=> (hasDot (ffmtF f)) (floatMarked (ffmtF f))) :pattern ((ffmtF f)))))
 (assert (forall ((f F64)) (! (floatMarked (app (ffmtF f) str_dot0)) :pattern ((app (ffmtF f) str_dot0)))))
 
 ; arrays:  LS(h, s, A, i, n): s = '[' e0 ',' ... e(i-1) and a ',' follows iff i < n and i > 0 ... (comma written after each element but the last)
 (declare-fun LS (Heap Str (Array Int Val) Int Int) Bool)
-(assert (forall ((h Heap) (A (Array Int Val)) (n Int)) (! (LS h (app str_empty (runeStr 91)) A 0 n) :pattern ((LS h (app str_empty (runeStr 91)) A 0 n)))))
-(assert (forall ((h Heap) (s Str) (t Str) (A (Array Int Val)) (i Int) (n Int)) (!
-  (=> (and (LS h s A i n) (JV h t (select A i)) (<= 0 i) (< (+ i 1) n)) (LS h (app (app s t) (runeStr 44)) A (+ i 1) n))
-  :pattern ((LS h s A i n) (app (app s t) (runeStr 44))))))
-(assert (forall ((h Heap) (s Str) (t Str) (A (Array Int Val)) (i Int) (n Int)) (!
-  (=> (and (LS h s A i n) (JV h t (select A i)) (<= 0 i) (= (+ i 1) n)) (LS h (app s t) A n n))
-  :pattern ((LS h s A i n) (app s t)))))
-(assert (forall ((h Heap) (s Str) (r Int)) (!
-  (=> (LS h s (select (Mem h) (select (Larr h) (impl r))) (select (Llen h) (impl r)) (select (Llen h) (impl r)))
-      (JV h (app s (runeStr 93)) (VList r)))
-  :pattern ((JV h (app s (runeStr 93)) (VList r))))))
+(assert (forall ((h Heap) (A (Array Int Val)) (n Int)) (! (=> (gh h) (LS h (app str_empty (runeStr 91)) A 0 n)) :pattern ((LS h (app str_empty (runeStr 91)) A 0 n)))))
+(assert (forall ((h Heap) (s Str) (t Str) (A (Array Int Val)) (i Int) (n Int)) (! (=> (gh h) (=> (and (LS h s A i n) (JV h t (select A i)) (<= 0 i) (< (+ i 1) n)) (LS h (app (app s t) (runeStr 44)) A (+ i 1) n))) :pattern ((LS h s A i n) (app (app s t) (runeStr 44))))))
+(assert (forall ((h Heap) (s Str) (t Str) (A (Array Int Val)) (i Int) (n Int)) (! (=> (gh h) (=> (and (LS h s A i n) (JV h t (select A i)) (<= 0 i) (= (+ i 1) n)) (LS h (app s t) A n n))) :pattern ((LS h s A i n) (app s t)))))
+(assert (forall ((h Heap) (s Str) (r Int)) (! (=> (gh h) (=> (LS h s (select (Mem h) (select (Larr h) (impl r))) (select (Llen h) (impl r)) (select (Llen h) (impl r))) (JV h (app s (runeStr 93)) (VList r)))) :pattern ((JV h (app s (runeStr 93)) (VList r))))))
 
 ; objects: OS(h, s, m, o, i, n): s = '{' followed by the first i members of enumeration o, comma after each but the last
 (declare-fun OS (Heap Str Int (Array Int Str) Int Int) Bool)
-(assert (forall ((h Heap) (m Int) (o (Array Int Str)) (n Int)) (! (OS h (app str_empty (runeStr 123)) m o 0 n) :pattern ((OS h (app str_empty (runeStr 123)) m o 0 n)))))
-(assert (forall ((h Heap) (s Str) (t Str) (q Str) (m Int) (o (Array Int Str)) (i Int) (n Int)) (!
-  (=> (and (OS h s m o i n) (JQ q (select o i)) (JV h t (select (select (MVal h) m) (select o i))) (<= 0 i) (< (+ i 1) n))
-      (OS h (app (app s (app (app q (runeStr 58)) t)) (runeStr 44)) m o (+ i 1) n))
-  :pattern ((OS h s m o i n) (app (app s (app (app q (runeStr 58)) t)) (runeStr 44))))))
-(assert (forall ((h Heap) (s Str) (t Str) (q Str) (m Int) (o (Array Int Str)) (i Int) (n Int)) (!
-  (=> (and (OS h s m o i n) (JQ q (select o i)) (JV h t (select (select (MVal h) m) (select o i))) (<= 0 i) (= (+ i 1) n))
-      (OS h (app s (app (app q (runeStr 58)) t)) m o n n))
-  :pattern ((OS h s m o i n) (app s (app (app q (runeStr 58)) t))))))
-(assert (forall ((h Heap) (s Str) (r Int) (o (Array Int Str))) (!
-  (=> (and (OS h s (select (Omap h) (impl r)) o (select (MCard h) (select (Omap h) (impl r))) (select (MCard h) (select (Omap h) (impl r))))
-           (isEnum o (select (MDom h) (select (Omap h) (impl r))) (select (MCard h) (select (Omap h) (impl r)))))
-      (JV h (app s (runeStr 125)) (VObj r)))
-  :pattern ((OS h s (select (Omap h) (impl r)) o (select (MCard h) (select (Omap h) (impl r))) (select (MCard h) (select (Omap h) (impl r)))) (JV h (app s (runeStr 125)) (VObj r))))))
+(assert (forall ((h Heap) (m Int) (o (Array Int Str)) (n Int)) (! (=> (gh h) (OS h (app str_empty (runeStr 123)) m o 0 n)) :pattern ((OS h (app str_empty (runeStr 123)) m o 0 n)))))
+(assert (forall ((h Heap) (s Str) (t Str) (q Str) (m Int) (o (Array Int Str)) (i Int) (n Int)) (! (=> (gh h) (=> (and (OS h s m o i n) (JQ q (select o i)) (JV h t (select (select (MVal h) m) (select o i))) (<= 0 i) (< (+ i 1) n)) (OS h (app (app s (app (app q (runeStr 58)) t)) (runeStr 44)) m o (+ i 1) n))) :pattern ((OS h s m o i n) (app (app s (app (app q (runeStr 58)) t)) (runeStr 44))))))
+(assert (forall ((h Heap) (s Str) (t Str) (q Str) (m Int) (o (Array Int Str)) (i Int) (n Int)) (! (=> (gh h) (=> (and (OS h s m o i n) (JQ q (select o i)) (JV h t (select (select (MVal h) m) (select o i))) (<= 0 i) (= (+ i 1) n)) (OS h (app s (app (app q (runeStr 58)) t)) m o n n))) :pattern ((OS h s m o i n) (app s (app (app q (runeStr 58)) t))))))
+(assert (forall ((h Heap) (s Str) (r Int) (o (Array Int Str))) (! (=> (gh h) (=> (and (OS h s (select (Omap h) (impl r)) o (select (MCard h) (select (Omap h) (impl r))) (select (MCard h) (select (Omap h) (impl r)))) (isEnum o (select (MDom h) (select (Omap h) (impl r))) (select (MCard h) (select (Omap h) (impl r))))) (JV h (app s (runeStr 125)) (VObj r)))) :pattern ((OS h s (select (Omap h) (impl r)) o (select (MCard h) (select (Omap h) (impl r))) (select (MCard h) (select (Omap h) (impl r)))) (JV h (app s (runeStr 125)) (VObj r))))))
 
 ; fmt.Sprintf("%s:%s", a, b)
 (assert (forall ((a Str) (b Str)) (! (= (sprintf str_fmt_kv (VStr a) (VStr b) VNil) (app (app a (runeStr 58)) b)) :pattern ((sprintf str_fmt_kv (VStr a) (VStr b) VNil)))))
@@ -70,10 +53,10 @@
 ; empty container frame).  Trusted region-frame lemmas: a spec predicate over a value depends
 ; only on containers reachable from it, all of which exist in h.
 (declare-fun ext (Heap Heap) Bool)
-(assert (forall ((a Heap) (b Heap) (c Heap)) (! (=> (and (ext a b) (ext b c)) (ext a c)) :pattern ((ext a b) (ext b c)))))
-(assert (forall ((h Heap) (h2 Heap) (s Str) (v Val)) (! (=> (and (JV h s v) (ext h h2)) (JV h2 s v)) :pattern ((JV h s v) (ext h h2)))))
-(assert (forall ((h Heap) (h2 Heap) (s Str) (A (Array Int Val)) (i Int) (n Int)) (! (=> (and (LS h s A i n) (ext h h2)) (LS h2 s A i n)) :pattern ((LS h s A i n) (ext h h2)))))
-(assert (forall ((h Heap) (h2 Heap) (s Str) (m Int) (o (Array Int Str)) (i Int) (n Int)) (! (=> (and (OS h s m o i n) (ext h h2)) (OS h2 s m o i n)) :pattern ((OS h s m o i n) (ext h h2)))))
+(assert (forall ((a Heap) (b Heap) (c Heap)) (! (=> (and (gh a) (gh b) (gh c)) (=> (and (ext a b) (ext b c)) (ext a c))) :pattern ((ext a b) (ext b c)))))
+(assert (forall ((h Heap) (h2 Heap) (s Str) (v Val)) (! (=> (and (gh h) (gh h2)) (=> (and (JV h s v) (ext h h2)) (JV h2 s v))) :pattern ((JV h s v) (ext h h2)))))
+(assert (forall ((h Heap) (h2 Heap) (s Str) (A (Array Int Val)) (i Int) (n Int)) (! (=> (and (gh h) (gh h2)) (=> (and (LS h s A i n) (ext h h2)) (LS h2 s A i n))) :pattern ((LS h s A i n) (ext h h2)))))
+(assert (forall ((h Heap) (h2 Heap) (s Str) (m Int) (o (Array Int Str)) (i Int) (n Int)) (! (=> (and (gh h) (gh h2)) (=> (and (OS h s m o i n) (ext h h2)) (OS h2 s m o i n))) :pattern ((OS h s m o i n) (ext h h2)))))
 (assert (and (= (slen str_dot) 1) (= (at str_dot 0) 46)))
 (assert (and (= (slen str_null) 4) (= (at str_null 0) 110) (= (at str_null 1) 117) (= (at str_null 2) 108) (= (at str_null 3) 108)))
 (assert (and (= (slen str_dot0) 2) (= (at str_dot0 0) 46) (= (at str_dot0 1) 48)))
